@@ -46,6 +46,7 @@ class Obligation:
     info_only: bool = False            # informational query, never a violation
     replay_hang_ok: bool = False       # a native replay that hangs confirms the cex
     native_cflags: list = field(default_factory=list)
+    native_srcs: list = field(default_factory=list)  # real units (relative to /repo) linked only into the native replay
     desc: dict = field(default_factory=dict)        # functions, symbolic inputs, bounds (evidence)
     expect_fail: bool = False          # confirmation query of a known finding
 
@@ -151,7 +152,7 @@ def goto_compile(sc, ob, workdir, witness):
 
 
 def cbmc_cmd(ob, gb, witness, do_slice=True):
-    cmd = ["cbmc", gb, "--function", "harness", "--json-ui", "--verbosity", "8", "--drop-unused-functions",
+    cmd = ["cbmc", gb, "--function", "harness", "--json-ui", "--verbosity", "8", "--drop-unused-functions", "--no-malloc-may-fail",
            "--unwind", str(ob.unwind)]
     if ob.unwindset:
         cmd += ["--unwindset", ",".join(ob.unwindset)]
@@ -265,7 +266,7 @@ def native_replay(sc, ob, vals, workdir):
            "-fsanitize=address,undefined", "-fno-sanitize=alignment",
            "-fno-sanitize-recover=undefined", "-fno-omit-frame-pointer"] + inc + \
           ["-D" + d for d in ob.defines] + ob.native_cflags + [tu] + \
-          [os.path.join(REPO, s) for s in ob.srcs] + \
+          [os.path.join(REPO, s) for s in ob.srcs + ob.native_srcs] + \
           [os.path.join(VERIF, "stubs", s) for s in ob.stubs] + ["-o", exe, "-lm"]
     rc, o, e, _, _ = run(cmd, 300, cwd=workdir, mem_gb=64)
     if rc != 0:
@@ -281,6 +282,13 @@ def native_replay(sc, ob, vals, workdir):
         return "assume-failed", tail
     if rc == 0:
         return "not-reproduced", tail
+    if rc in (126, 127):
+        return "build-failed", "replay executable could not start (exit %s)\n%s" % (rc, tail)
+    # a genuine reproduction is a failed harness assertion, a sanitizer report or a fatal signal
+    evidence = ("REPLAY: ASSERT-FAIL" in (o + e)) or ("Sanitizer" in (o + e)) or ("runtime error:" in (o + e)) \
+        or (isinstance(rc, int) and rc < 0)
+    if not evidence:
+        return "not-reproduced", "exit=%s without assertion/sanitizer evidence\n%s" % (rc, tail)
     return "reproduced", "exit=%s\n%s" % (rc, tail)
 
 
@@ -330,107 +338,123 @@ def run_obligation(sc, ob, prop_id):
         return r
     r.units = [u.replace(REPO + "/", "repo:").replace(VERIF + "/", "verif:") for u in units]
     r.units += included_units(os.path.join(VERIF, "harness", ob.harness))
-    cmd = cbmc_cmd(ob, gb, witness=False)
-    r.cmd = " ".join(cmd).replace(wd + "/", "")
-    outp = os.path.join(wd, "m.json")
-    rc, _, err, secs, rss = run(cmd, ob.timeout, cwd=wd, mem_gb=ob.mem_gb, stdout_file=outp)
-    r.cbmc_s, r.rss_kb = secs, rss
-    if rc == "timeout":
-        r.status, r.detail = "inconclusive", "cbmc timeout after %ds" % ob.timeout
-        return r
-    pr = parse_cbmc(outp)
-    r.vars, r.clauses, r.solver_s = pr["vars"], pr["clauses"], pr["solver_s"]
-    if not pr["results"]:
-        r.status = "inconclusive"
-        r.detail = "cbmc rc=%s produced no verdict: %s %s" % (rc, "; ".join(pr["errors"])[-1500:], err[-500:])
-        return r
-    r.n_props = len(pr["results"])
-    fails = [p for p in pr["results"] if p.get("status") == "FAILURE"]
-    undecided = [p for p in pr["results"] if p.get("status") not in ("SUCCESS", "FAILURE")]
-    r.n_ok = sum(1 for p in pr["results"] if p.get("status") == "SUCCESS")
-    unwind_f = [p for p in fails if classify(p) == "unwind"]
-    nobody_f = [p for p in fails if classify(p) == "nobody"]
-    if nobody_f:
-        r.status = "inconclusive"
-        r.detail = "functions without a body reached (model missing): " + ", ".join(p.get("property", "") for p in nobody_f[:8])
-        return r
-    ptr_f = [p for p in fails if classify(p) == "ptr-overflow"]
-    real_f = [p for p in fails if classify(p) == "assert"]
-    r.failed = [(p.get("property"), p.get("description"), p.get("sourceLocation", {}).get("file", "") + ":" +
-                 str(p.get("sourceLocation", {}).get("line", ""))) for p in fails]
-    for p in ptr_f:
-        r.ub_notes.append("%s %s" % (p.get("property"), p.get("description")))
-    if unwind_f:
-        r.status = "inconclusive"
-        r.detail = "unwinding assertion failed (bound too small): " + ", ".join(p.get("property", "") for p in unwind_f[:5])
-        return r
-    if undecided and not real_f:
-        r.status = "inconclusive"
-        r.detail = "cbmc left %d properties undecided (%s): %s" % (len(undecided), undecided[0].get("status"), "; ".join(pr["errors"])[-800:])
-        return r
-    if ob.expect_fail:
-        # confirmation query for a known finding: must fail and reproduce
-        if not real_f:
-            r.status, r.detail = "kf-gone", "known finding no longer reproduces symbolically"
+    base_cmd = cbmc_cmd(ob, gb, witness=False)
+    r.cmd = " ".join(base_cmd).replace(wd + "/", "")
+    # CBMC 6 reports UNKNOWN for properties that are only reachable after a FAILED built-in (fatal)
+    # check.  When such a failure turns out to be a non-reproducible strictness artefact (UB-NOTE), the
+    # UNKNOWN properties are re-checked on their own (--property) so that nothing is left undecided.
+    only = []
+    for rnd in range(4):
+        cmd = base_cmd + [x for pid_ in only for x in ("--property", pid_)]
+        outp = os.path.join(wd, "m%d.json" % rnd)
+        rc, _, err, secs, rss = run(cmd, ob.timeout, cwd=wd, mem_gb=ob.mem_gb, stdout_file=outp)
+        r.cbmc_s += secs
+        r.rss_kb = max(r.rss_kb, rss)
+        if rc == "timeout":
+            r.status, r.detail = "inconclusive", "cbmc timeout after %ds" % ob.timeout
             return r
-    if real_f:
-        # user assertions (V_ASSERT) first, then CBMC's built-in checks, one per source line
-        user_f = [p for p in real_f if ".assertion." in p.get("property", "")]
-        built_f = [p for p in real_f if ".assertion." not in p.get("property", "")]
-        seen, cand = set(), []
-        for p in user_f + built_f:
-            loc = p.get("sourceLocation", {})
-            key = (loc.get("file"), loc.get("line"), ".assertion." in p.get("property", ""))
-            if key in seen:
-                continue
-            seen.add(key)
-            cand.append(p)
-        tried = []
-        unconfirmed_user = []
-        for p in cand[:14]:
-            is_user = ".assertion." in p.get("property", "")
-            vals = extract_inputs(p.get("trace", []))
-            st, det = native_replay(sc, ob, vals, wd)
-            if st == "assume-failed" and ob.slice:
-                # the sliced trace omitted inputs constrained only by assumptions: redo unsliced for a full assignment
-                cmd2 = cbmc_cmd(ob, gb, witness=False, do_slice=False) + ["--property", p.get("property")]
-                out2 = os.path.join(wd, "m2.json")
-                run(cmd2, ob.timeout, cwd=wd, mem_gb=ob.mem_gb, stdout_file=out2)
-                pr2 = parse_cbmc(out2)
-                f2 = [q for q in pr2["results"] if q.get("status") == "FAILURE" and q.get("property") == p.get("property")]
-                if f2:
-                    vals = extract_inputs(f2[0].get("trace", []))
-                    st, det = native_replay(sc, ob, vals, wd)
-            tried.append((p.get("property"), p.get("description"), st))
-            if st == "reproduced":
-                r.cex = {"property": p.get("property"), "description": p.get("description"),
-                         "location": p.get("sourceLocation", {}), "inputs": vals, "native": det[-1500:]}
-                rp_dir = os.path.join(VERIF, "replays", prop_id)
-                os.makedirs(rp_dir, exist_ok=True)
-                h = hashlib.sha1(json.dumps([ob.name, vals], sort_keys=True).encode()).hexdigest()[:10]
-                r.replay_path = os.path.join(rp_dir, "%s-%s.json" % (re.sub(r"[^A-Za-z0-9_.-]", "_", ob.name), h))
-                json.dump({"property_id": prop_id, "obligation": ob.name, "harness": ob.harness,
-                           "defines": ob.defines, "srcs": ob.srcs, "stubs": ob.stubs,
-                           "native_cflags": ob.native_cflags, "incdirs": ob.incdirs, "replay_hang_ok": ob.replay_hang_ok,
-                           "failed_assertion": p.get("description"),
-                           "cbmc_property": p.get("property"), "inputs": vals,
-                           "native_output": det[-1500:]}, open(r.replay_path, "w"), indent=1)
-                r.status = "violation"
-                r.detail = "%s: %s" % (p.get("property"), p.get("description"))
-                return r
-            if is_user:
-                unconfirmed_user.append((p.get("property"), p.get("description"), st, det[-300:]))
-            else:
-                # standard-level strictness of CBMC (e.g. forming an lvalue for a struct that is only
-                # partly inside the object) that neither ASan nor UBSan confirms: reported separately
-                r.ub_notes.append("not reproduced natively (%s): %s %s" % (st, p.get("property"), p.get("description")))
-        if unconfirmed_user:
-            r.status = "unconfirmed"
-            r.detail = "counterexample(s) of harness assertions did not reproduce natively: %s" % unconfirmed_user
+        pr = parse_cbmc(outp)
+        if rnd == 0:
+            r.vars, r.clauses, r.solver_s = pr["vars"], pr["clauses"], pr["solver_s"]
+        if not pr["results"]:
+            r.status = "inconclusive"
+            r.detail = "cbmc rc=%s produced no verdict: %s %s" % (rc, "; ".join(pr["errors"])[-1500:], err[-500:])
+            return r
+        if rnd == 0:
+            r.n_props = len(pr["results"])
+        fails = [p for p in pr["results"] if p.get("status") == "FAILURE"]
+        undecided = [p for p in pr["results"] if p.get("status") not in ("SUCCESS", "FAILURE")]
+        r.n_ok += sum(1 for p in pr["results"] if p.get("status") == "SUCCESS")
+        unwind_f = [p for p in fails if classify(p) == "unwind"]
+        nobody_f = [p for p in fails if classify(p) == "nobody"]
+        if nobody_f:
+            r.status = "inconclusive"
+            r.detail = "functions without a body reached (model missing): " + ", ".join(p.get("property", "") for p in nobody_f[:8])
+            return r
+        ptr_f = [p for p in fails if classify(p) == "ptr-overflow"]
+        real_f = [p for p in fails if classify(p) == "assert"]
+        r.failed += [(p.get("property"), p.get("description"), p.get("sourceLocation", {}).get("file", "") + ":" +
+                     str(p.get("sourceLocation", {}).get("line", ""))) for p in fails]
+        for p in ptr_f:
+            r.ub_notes.append("%s %s" % (p.get("property"), p.get("description")))
+        if unwind_f:
+            r.status = "inconclusive"
+            r.detail = "unwinding assertion failed (bound too small): " + ", ".join(p.get("property", "") for p in unwind_f[:5])
+            return r
+        if undecided and not fails:
+            r.status = "inconclusive"
+            r.detail = "cbmc left %d properties undecided (%s) without any failure: %s" % (len(undecided), undecided[0].get("status"), "; ".join(pr["errors"])[-800:])
             return r
         if ob.expect_fail:
-            r.status, r.detail = "kf-gone", "known finding no longer reproduces natively"
-            return r
+            # confirmation query for a known finding: must fail and reproduce
+            if not real_f:
+                r.status, r.detail = "kf-gone", "known finding no longer reproduces symbolically"
+                return r
+        if real_f:
+            # user assertions (V_ASSERT) first, then CBMC's built-in checks, one per source line
+            user_f = [p for p in real_f if ".assertion." in p.get("property", "")]
+            built_f = [p for p in real_f if ".assertion." not in p.get("property", "")]
+            seen, cand = set(), []
+            for p in user_f + built_f:
+                loc = p.get("sourceLocation", {})
+                key = (loc.get("file"), loc.get("line"), ".assertion." in p.get("property", ""))
+                if key in seen:
+                    continue
+                seen.add(key)
+                cand.append(p)
+            tried = []
+            unconfirmed_user = []
+            for p in cand[:14]:
+                is_user = ".assertion." in p.get("property", "")
+                vals = extract_inputs(p.get("trace", []))
+                st, det = native_replay(sc, ob, vals, wd)
+                if st == "assume-failed" and ob.slice:
+                    # the sliced trace omitted inputs constrained only by assumptions: redo unsliced for a full assignment
+                    cmd2 = cbmc_cmd(ob, gb, witness=False, do_slice=False) + ["--property", p.get("property")]
+                    out2 = os.path.join(wd, "m2.json")
+                    run(cmd2, ob.timeout, cwd=wd, mem_gb=ob.mem_gb, stdout_file=out2)
+                    pr2 = parse_cbmc(out2)
+                    f2 = [q for q in pr2["results"] if q.get("status") == "FAILURE" and q.get("property") == p.get("property")]
+                    if f2:
+                        vals = extract_inputs(f2[0].get("trace", []))
+                        st, det = native_replay(sc, ob, vals, wd)
+                tried.append((p.get("property"), p.get("description"), st))
+                if st == "reproduced":
+                    r.cex = {"property": p.get("property"), "description": p.get("description"),
+                             "location": p.get("sourceLocation", {}), "inputs": vals, "native": det[-1500:]}
+                    rp_dir = os.path.join(VERIF, "replays", prop_id)
+                    os.makedirs(rp_dir, exist_ok=True)
+                    h = hashlib.sha1(json.dumps([ob.name, vals], sort_keys=True).encode()).hexdigest()[:10]
+                    r.replay_path = os.path.join(rp_dir, "%s-%s.json" % (re.sub(r"[^A-Za-z0-9_.-]", "_", ob.name), h))
+                    json.dump({"property_id": prop_id, "obligation": ob.name, "harness": ob.harness,
+                               "defines": ob.defines, "srcs": ob.srcs, "stubs": ob.stubs,
+                               "native_cflags": ob.native_cflags, "native_srcs": ob.native_srcs, "incdirs": ob.incdirs, "replay_hang_ok": ob.replay_hang_ok,
+                               "failed_assertion": p.get("description"),
+                               "cbmc_property": p.get("property"), "inputs": vals,
+                               "native_output": det[-1500:]}, open(r.replay_path, "w"), indent=1)
+                    r.status = "violation"
+                    r.detail = "%s: %s" % (p.get("property"), p.get("description"))
+                    return r
+                if is_user:
+                    unconfirmed_user.append((p.get("property"), p.get("description"), st, det[-300:]))
+                else:
+                    # standard-level strictness of CBMC (e.g. forming an lvalue for a struct that is only
+                    # partly inside the object) that neither ASan nor UBSan confirms: reported separately
+                    r.ub_notes.append("not reproduced natively (%s): %s %s" % (st, p.get("property"), p.get("description")))
+            if unconfirmed_user:
+                r.status = "unconfirmed"
+                r.detail = "counterexample(s) of harness assertions did not reproduce natively: %s" % unconfirmed_user
+                return r
+            if ob.expect_fail:
+                r.status, r.detail = "kf-gone", "known finding no longer reproduces natively"
+                return r
+        if not undecided:
+            break
+        only = [p.get("property") for p in undecided]
+    else:
+        r.status, r.detail = "inconclusive", "properties still undecided after 4 rounds"
+        return r
+
     # all properties hold: now the witness twin must be reachable
     if ob.witness:
         try:
@@ -450,8 +474,13 @@ def run_obligation(sc, ob, prop_id):
         if not ws:
             r.status, r.detail = "vacuous", "no WITNESS point in harness (%s)" % "; ".join(wr["errors"])[-500:]
             return r
-        unreached = [p.get("description") for p in ws if p.get("status") == "SUCCESS"]
-        r.witness = {"points": len(ws), "reached": len(ws) - len(unreached)}
+        # a witness LABEL is reached when any V_REACH carrying it is reachable (the same label may
+        # be planted at alternative program points)
+        labels = {}
+        for p in ws:
+            labels[p.get("description")] = labels.get(p.get("description"), False) or (p.get("status") == "FAILURE")
+        unreached = sorted(l for l, ok in labels.items() if not ok)
+        r.witness = {"points": len(labels), "reached": len(labels) - len(unreached)}
         if unreached:
             r.status, r.detail = "vacuous", "unreachable witness point(s): %s" % unreached
             return r
@@ -502,11 +531,15 @@ def check_main(prop_id, level_text, obligations_fn, argv):
         # add a confirmation query restricted to it (-D<define>_ONLY) that must still fail.
         final = []
         for ob in obs:
-            mine = [k for k in open_kfs if k.get("obligation") == ob.name]
+            mine = [k for k in open_kfs if re.fullmatch(k.get("obligation", ""), ob.name)]
             if mine:
                 ob.defines = ob.defines + [k["define"] for k in mine]
             final.append(ob)
             for k in mine:
+                # one confirmation twin per finding: on the obligation named by "confirm_obligation"
+                # (default: every matching obligation)
+                if k.get("confirm_obligation") and k["confirm_obligation"] != ob.name:
+                    continue
                 import copy
                 c = copy.deepcopy(ob)
                 c.name = ob.name + "@kf:" + k["id"]
@@ -652,7 +685,7 @@ def replay_file(sc, path):
     d = json.load(open(path))
     ob = Obligation(name=d["obligation"], harness=d["harness"], defines=d.get("defines", []),
                     srcs=d.get("srcs", []), stubs=d.get("stubs", []),
-                    native_cflags=d.get("native_cflags", []), incdirs=d.get("incdirs", []), replay_hang_ok=d.get("replay_hang_ok", False))
+                    native_cflags=d.get("native_cflags", []), native_srcs=d.get("native_srcs", []), incdirs=d.get("incdirs", []), replay_hang_ok=d.get("replay_hang_ok", False))
     st, det = native_replay(sc, ob, d["inputs"], sc.sub("replay"))
     print(det)
     print("REPLAY %s: %s" % (path, st))
